@@ -104,7 +104,7 @@ impl Scenario for DrgScn {
         let mut t = Trace::new("drg", "drg");
         t.set_p("rounds", *rng.pick(&[8u64, 12, 20]));
         t.set_p("seed_seed", match rng.below(10) { 0 => 0, 1 => 1, _ => rng.data_seed() });
-        let nops = rng.range(2, if tier == Tier::Thorough { 40 } else { 20 });
+        let nops = if rng.chance(1, 300) { rng.range(300, 700) } else { rng.range(2, if tier == Tier::Thorough { 40 } else { 20 }) };
         let mut w = [6u32, 6, 6, 3, 3];
         for x in w.iter_mut() {
             if rng.chance(1, 4) {
